@@ -1,0 +1,53 @@
+//go:build verif
+
+package account
+
+// Contracts for the deductive checks in /verif (tool: govc). Comment-only; build tag `verif`.
+
+//@ func (ctrler *AcctCtrler) transfer(from, to, amt)
+//@   nopanic
+//@   requires from != nil && to != nil && amt != nil && from.Balance != nil && to.Balance != nil
+//@   requires amt != from.Balance && amt != to.Balance
+//@   requires from != to ==> from.Balance != to.Balance
+//@   requires from != to ==> u(to.Balance) + u(amt) < 2^256
+//@   modifies u(from.Balance), u(to.Balance)
+//@   ensures result != nil ==> u(from.Balance) == old(u(from.Balance)) && u(to.Balance) == old(u(to.Balance))          [C05,C02]
+//@   ensures result == nil && from != to ==> u(from.Balance) == old(u(from.Balance)) - u(amt) && u(to.Balance) == old(u(to.Balance)) + u(amt)   [C02]
+//@   ensures result == nil && from == to ==> u(from.Balance) == old(u(from.Balance))                                   [C02]
+//@   ensures result == nil ==> u(amt) <= old(u(from.Balance))                                                          [C02]
+
+//@ func (ctrler *AcctCtrler) setDoc(acct, name, url)
+//@   nopanic
+//@   requires acct != nil
+//@   modifies acct.Name, acct.DocURL
+//@   ensures acct.Name == name && acct.DocURL == url
+
+//@ func (ctrler *AcctCtrler) setAccountCommittable(acct, exec)
+//@   nopanic
+//@   objinv ctrler != nil && ctrler.acctLedger != nil
+//@   requires acct != nil
+//@   modifies allmaps(memItems.gotItems)
+//@   ensures result == nil                                                                                             [C05]
+
+//@ func (ctrler *AcctCtrler) SetAccountCommittable(acct, exec)
+//@   nopanic
+//@   implements (IAccountHandler).SetAccountCommittable
+//@   objinv ctrler != nil && ctrler.acctLedger != nil
+//@   requires acct != nil
+//@   modifies allmaps(memItems.gotItems)
+//@   ensures result == nil                                                                                             [C05]
+
+//@ func (ctrler *AcctCtrler) ValidateTrx(ctx)
+//@   nopanic
+//@   implements (ITrxHandler_TrxAcctHandler).ValidateTrx
+//@   requires wf_ctx(ctx)
+
+//@ func (ctrler *AcctCtrler) ExecuteTrx(ctx)
+//@   nopanic
+//@   implements (ITrxHandler_TrxAcctHandler).ExecuteTrx
+//@   objinv ctrler != nil && ctrler.acctLedger != nil
+//@   requires wf_ctx(ctx) && amounts_fit(ctx)
+//@   modifies u(ctx.Sender.Balance), u(ctx.Receiver.Balance), ctx.Sender.Name, ctx.Sender.DocURL, allmaps(memItems.gotItems)
+//@   ensures result != nil ==> u(ctx.Sender.Balance) == old(u(ctx.Sender.Balance)) && u(ctx.Receiver.Balance) == old(u(ctx.Receiver.Balance))   [C05]
+//@   ensures result == nil ==> u(ctx.Sender.Balance) >= old(u(ctx.Sender.Balance)) - u(ctx.Tx.Amount)                  [C16]
+//@   ensures result == nil && ctx.Tx.Type == 1 && ctx.Sender != ctx.Receiver ==> u(ctx.Sender.Balance) == old(u(ctx.Sender.Balance)) - u(ctx.Tx.Amount) && u(ctx.Receiver.Balance) == old(u(ctx.Receiver.Balance)) + u(ctx.Tx.Amount)   [C02]
